@@ -13,12 +13,12 @@ import (
 type Kind string
 
 const (
-	KWrite    Kind = "write"            // journaled ledger write
-	KWriteRaw Kind = "write-nojournal"  // non-journaled ledger write (AddState family)
-	KEvent    Kind = "event"            // event post
-	KBalance  Kind = "balance"          // balance/nonce mutation on an account object
-	KEVM      Kind = "evm"              // EVM invocation
-	KXInvoke  Kind = "xinvoke-dynamic"  // cross-invoke whose target is not constant
+	KWrite    Kind = "write"           // journaled ledger write
+	KWriteRaw Kind = "write-nojournal" // non-journaled ledger write (AddState family)
+	KEvent    Kind = "event"           // event post
+	KBalance  Kind = "balance"         // balance/nonce mutation on an account object
+	KEVM      Kind = "evm"             // EVM invocation
+	KXInvoke  Kind = "xinvoke-dynamic" // cross-invoke whose target is not constant
 )
 
 // ContractPrims are the effect primitives visible to built-in contracts.
